@@ -14,6 +14,7 @@ def run(ck):
     replies.spec_http_write_with_body(ck)
     replies.spec_http_callbacks(ck)
     replies.spec_socks_callbacks(ck)
+    replies.spec_socks_association_replies(ck)
     replies.spec_socks_handshake(ck)
     replies.spec_h11c_connect(ck)
     codec.spec_socks_response_roundtrip(ck, 5)
